@@ -188,13 +188,26 @@ func c14graphs(r *rand.Rand, yieldEvery int64) []*c14graph {
 		}
 		gs = append(gs, mg)
 	}
+	// NOTE: the expected outcomes are NOT computed here. Any sequential parse before the first concurrent round would
+	// warm up process-wide state (a lazily filled package-level cache is only written by its first users) and hide
+	// exactly the writes a cold concurrent start performs. c14expect computes them after the rounds.
+	return gs
+}
+
+// c14expect computes the outcome of every input executed alone, on a private instance of each graph
+func c14expect(gs []*c14graph) {
 	for _, g := range gs {
 		private := g.build()
 		for i := range g.inputs {
 			g.inputs[i].want = c14outcome(private, g.inputs[i].text, g.eval, nil, nil)
 		}
 	}
-	return gs
+}
+
+// c14observed collects the distinct outcomes every (graph, input) produced in the concurrent rounds
+type c14observed struct {
+	mu  sync.Mutex
+	got map[[2]int]map[string]int // (graph, input) -> outcome -> goroutines of the round it was first seen in
 }
 
 type c14span struct {
@@ -202,13 +215,12 @@ type c14span struct {
 	start, end int64
 }
 
-func c14round(a *run.Acc, gs []*c14graph, r *rand.Rand, goroutines, procs, iters int, sharedFS bool, construct bool) {
+func c14round(a *run.Acc, obs *c14observed, gs []*c14graph, r *rand.Rand, goroutines, procs, iters int, sharedFS bool, construct bool) {
 	old := runtime.GOMAXPROCS(procs)
 	defer runtime.GOMAXPROCS(old)
 	var clock int64
 	var mu sync.Mutex
 	var spans []c14span
-	var mismatches []map[string]any
 	var wg sync.WaitGroup
 	start := make(chan struct{})
 	seeds := make([]int64, goroutines)
@@ -268,17 +280,15 @@ func c14round(a *run.Acc, gs []*c14graph, r *rand.Rand, goroutines, procs, iters
 				}
 				t1 := atomic.AddInt64(&clock, 1)
 				local = append(local, c14span{w, t0, t1})
-				want := in.want
-				if sharedFS {
-					// positions are relative and the file name is the same; only the base differs, which renderings do not show
+				obs.mu.Lock()
+				k := [2]int{jb.gi, jb.ii}
+				if obs.got[k] == nil {
+					obs.got[k] = map[string]int{}
 				}
-				if got != want {
-					mu.Lock()
-					if len(mismatches) < 5 {
-						mismatches = append(mismatches, map[string]any{"graph": g.name, "input": in.text, "alone": trunc(want, 300), "concurrent": trunc(got, 300), "goroutines": goroutines})
-					}
-					mu.Unlock()
+				if _, seen := obs.got[k][got]; !seen {
+					obs.got[k][got] = goroutines
 				}
+				obs.mu.Unlock()
 			}
 			mu.Lock()
 			spans = append(spans, local...)
@@ -289,9 +299,6 @@ func c14round(a *run.Acc, gs []*c14graph, r *rand.Rand, goroutines, procs, iters
 	wg.Wait()
 	a.Count("concurrent parses", int64(len(spans)))
 	a.Count("grammars constructed concurrently with parses", built)
-	for _, m := range mismatches {
-		a.Violate("concurrent-result-differs-from-sequential", "concurrent-result-differs-from-sequential", m)
-	}
 	// pairs of parses on different goroutines that overlapped in logical time
 	sort.Slice(spans, func(i, j int) bool { return spans[i].start < spans[j].start })
 	overlaps := int64(0)
@@ -379,15 +386,7 @@ func c14exec(j run.Job, a *run.Acc) {
 	case "shared-graphs":
 		gs := c14graphs(r, int64(j.Param("yield", 0)))
 		a.Count("shared parser graphs", int64(len(gs)))
-		for _, g := range gs {
-			for _, in := range g.inputs {
-				if strings.HasPrefix(in.want, "error") {
-					a.Count("failure inputs in the pool", 1)
-				} else {
-					a.Count("success inputs in the pool", 1)
-				}
-			}
-		}
+		obs := &c14observed{got: map[[2]int]map[string]int{}}
 		a.Sample("graph", map[string]any{"graph": gs[len(gs)-1].name, "inputs": len(gs[len(gs)-1].inputs)})
 		round := 0
 		for rep := 0; rep < j.N; rep++ {
@@ -398,7 +397,25 @@ func c14exec(j run.Job, a *run.Acc) {
 						continue
 					}
 					a.Count("rounds", 1)
-					c14round(a, gs, rand.New(rand.NewSource(j.Seed*7919+int64(round))), n, procs, j.Param("iters", 12), rep%2 == 1, (rep+n)%3 == 0)
+					c14round(a, obs, gs, rand.New(rand.NewSource(j.Seed*7919+int64(round))), n, procs, j.Param("iters", 12), rep%2 == 1, (rep+n)%3 == 0)
+				}
+			}
+		}
+		// only now, after the concurrent rounds, is anything parsed sequentially in this process
+		c14expect(gs)
+		for gi, g := range gs {
+			for ii, in := range g.inputs {
+				if strings.HasPrefix(in.want, "error") {
+					a.Count("failure inputs in the pool", 1)
+				} else {
+					a.Count("success inputs in the pool", 1)
+				}
+				for got, n := range obs.got[[2]int{gi, ii}] {
+					a.Count("distinct concurrent outcomes compared with the sequential run", 1)
+					if got != in.want {
+						a.Violate("concurrent-result-differs-from-sequential", "concurrent-result-differs-from-sequential",
+							map[string]any{"graph": g.name, "input": in.text, "alone": trunc(in.want, 300), "concurrent": trunc(got, 300), "goroutines": n})
+					}
 				}
 			}
 		}
@@ -489,7 +506,7 @@ func init() {
 		},
 		Exec:       c14exec,
 		Post:       c14post,
-		MaxWorkers: 4, // every worker spawns up to 16 goroutines of its own
+		SerialJobs: true, // one fresh process per job: every job starts cold (nothing parsed before its first concurrent round)
 		Finish: func(tier string, a *run.Acc, cov map[string]any) string {
 			cov["rule"] = "the check runs in a -race build (GORACE halt_on_error=0 log_path=...). case = one round: N in {2,4,8,16} goroutines released by a barrier at GOMAXPROCS in {2,4,16}, each parsing/evaluating inputs (success and failure) " +
 				"on SHARED parser graphs (JSON example, left-recursive arithmetic, left-recursive seed-corpus grammars, random and mutual-LR grammars) with its own file, reader and context " +
